@@ -17,6 +17,10 @@ mod xz;
 
 use std::io;
 
+#[cfg(lzma_rs_verif)]
+#[doc(hidden)]
+pub mod verif_hooks;
+
 /// Compression helpers.
 pub mod compress {
     pub use crate::encode::options::*;
